@@ -8,6 +8,7 @@ abstract constraints, and `…_rendered` transfers every statement to the clause
 class and to the constraint list of the OPB class.
 -/
 import Lemmas.FamRamsey
+import Lemmas.FamRamseyFinset
 import Lemmas.FamCpls
 import Lemmas.FamPitfallAxioms
 import Mathlib.Tactic.IntervalCases
@@ -135,6 +136,20 @@ theorem ramsey_rendered (s k N : Nat) (hs : 1 ≤ s) (hk : 1 ≤ k) (F : Formula
   have hwf := (ramsey_nvars_wf s k N hs hk F h).2
   rw [Formula.toCNF_holds α F hwf, Formula.toOPB_holds α F hwf]
   exact ⟨ramsey_holds_iff s k N hs hk F h α, ramsey_holds_iff s k N hs hk F h α⟩
+
+/-- the same with vertex sets as finite sets: the formula holds iff every `s`-element set of vertices of
+`1..N` spans an edge and every `k`-element set spans a non-edge of the graph `{uv | α e_uv}` -/
+theorem ramsey_holds_iff_finset (s k N : Nat) (hs : 1 ≤ s) (hk : 1 ≤ k) (F : Formula)
+    (h : Ramsey.ramseyNumber (s : Int) (k : Int) (N : Int) = .ok F) (α : Assign) :
+    F.holds α = true ↔
+      (∀ S : Finset Nat, (∀ x ∈ S, 1 ≤ x ∧ x ≤ N) → S.card = s → ∃ u ∈ S, ∃ v ∈ S, u ≠ v ∧ Adj N α u v) ∧
+      (∀ S : Finset Nat, (∀ x ∈ S, 1 ≤ x ∧ x ≤ N) → S.card = k → ∃ u ∈ S, ∃ v ∈ S, u ≠ v ∧ ¬ Adj N α u v) := by
+  rw [ramsey_holds_iff s k N hs hk F h α]
+  have hsym : ∀ u v, Adj N α u v → Adj N α v u := by
+    intro u v; simp only [Adj, Nat.min_comm, Nat.max_comm]; exact id
+  have hsym' : ∀ u v, ¬ Adj N α u v → ¬ Adj N α v u := fun u v hn hvu => hn (hsym v u hvu)
+  exact and_congr (sorted_lists_iff_finsets N s (Adj N α) hsym)
+    (sorted_lists_iff_finsets N k (fun u v => ¬ Adj N α u v) hsym')
 
 /-- one assignment per graph, part 1: every graph on `1..N` is encoded by some assignment -/
 theorem ramsey_graph_has_assignment (N : Nat) (E : Nat → Nat → Bool) :
